@@ -10,6 +10,15 @@ COMMON_NOTE = ("Trusted base: TLC 1.8 evaluating the TLA+ specification in /veri
                "assumption of DESIGN 2.5 for the exhaustive part; simulated / random traces go beyond it.")
 
 CHECKS = {
+ "C01": dict(engine="Convert", design="3/C01",
+   text=("TLC model-checks Convert (Unmat o Mat = id for every ordered partition, cyclic conventions are partitions "
+         "with the documented column order, dense<->sparse<->sparse-matricized preserve denotation and nonzero "
+         "count, denotation and well-formedness invariant along conversion histories) and enumerates every "
+         "conversion in scope on all seven object kinds; behaviours (single conversions exhaustively, chains by "
+         "simulation) are replayed into the real classes and the recorded traces are validated by TLC against "
+         "Convert_Trace: reported shape / tshape / rdims / cdims / matrix shape / nnz and the denotation must be "
+         "those the specification derives."),
+   technique="TLA+ spec Convert; TLC exhaustive generation + law invariants; replay into pyttb; TLC trace validation"),
  "C17": dict(engine="Helpers", design="3/C17",
    text=("TLC model-checks Helpers (Lin/Unlin bijection and stride law for every shape in scope, set-algebra "
          "laws of the row helpers, mode-selection laws, Khatri-Rao associativity and Kronecker row formula) "
